@@ -111,3 +111,63 @@ def near_field(topo, current, k, obs, ground=False, srm=0.0, adaptive=False):
             E += -1j * mconst * I * sg * (k * k * (t0 * pv + t1 * pu) - (g1 / L1 - g0 / L0))
             H += I * sg * (np.cross(gv, t0) + np.cross(gu, t1)) / (4 * math.pi)
     return E, H
+
+
+# ---------------------------------------------------------------------------
+# far field over real ground: reflection-coefficient approximation as MININEC documents it
+# (Fresnel coefficients from the surface impedance of the medium under the specular point, optional radial
+# screen on the first medium, media at lower heights, grounded pulses radiate as over perfect ground)
+
+def medium_impedance(eps, sigma, f_mhz):
+    t = 2 * math.pi * f_mhz * 8.85e-6
+    return 1 / np.sqrt(eps - 1j * sigma / t)
+
+
+def far_field_real_ground(topo, current, k, f_mhz, theta_deg, phi_deg, media, circular, radials=None):
+    """media: list of dict(eps, sigma, height, coord (absent for the last)); returns (E_theta r, E_phi r)"""
+    rhat, that, phat = sph(theta_deg, phi_deg)
+    th, ph = math.radians(theta_deg), math.radians(phi_deg)
+    ct, st_ = math.cos(th), math.sin(th)
+    coords = [m.get('coord', 1e6) for m in media]
+    coords[-1] = 1e6
+    N = np.zeros(3, complex)
+    for p in topo.pulses:
+        I = current[p.idx]
+        legs = []
+        if not (p.kind == 'gnd' and p.gnd_end == 0):
+            d = p.pt - p.e0
+            legs.append((d / np.linalg.norm(d), np.linalg.norm(d) / 2))
+        if not (p.kind == 'gnd' and p.gnd_end == 1):
+            d = p.e1 - p.pt
+            legs.append((d / np.linalg.norm(d), np.linalg.norm(d) / 2))
+        x, y, z = p.pt
+        direct = np.exp(1j * k * (rhat @ p.pt))
+        for t, hl in legs:
+            b = I * k * hl
+            if p.kind == 'gnd':
+                # the lowest half segment of a grounded wire: perfect image at the base
+                N += b * direct * np.array([0.0, 0.0, 2 * t[2]])
+                continue
+            N += b * direct * t
+            # specular point and the medium below it
+            t4 = z * st_ / ct if ct != 0 else 1e5
+            cx, cy = t4 * math.cos(ph) + x, t4 * math.sin(ph) + y
+            b9 = math.hypot(cx, cy) if circular else cx
+            j2 = 0
+            while j2 < len(coords) - 1 and b9 > coords[j2]:
+                j2 += 1
+            zs = medium_impedance(media[j2]['eps'], media[j2]['sigma'], f_mhz)
+            if radials and j2 == 0:
+                prod = radials['n'] * radials['r']
+                r_ = b9 + prod
+                z8 = k * r_ * math.log(r_ / prod) / radials['n']
+                zs = zs * (1j * z8) / (zs + 1j * z8)
+            w = np.sqrt(1 - zs ** 2 * st_ ** 2)
+            rv = (ct - w * zs) / (ct + w * zs)
+            rh = (w - ct * zs) / (w + ct * zs)
+            h = media[j2].get('height', 0.0)
+            img_pt = np.array([x, y, 2 * h - z])
+            phs = np.exp(1j * k * (rhat @ img_pt))
+            timg = np.array([-t[0], -t[1], t[2]])
+            N += b * phs * (rv * timg - (rh - rv) * (t @ phat) * phat)
+    return -1j * G0 * (N @ that), -1j * G0 * (N @ phat)
